@@ -225,3 +225,45 @@ def history(case, ctx):
     ctx.nontrivial_if(len(steps) >= 2 and any(any(s["offset"]) for s in steps))
     for i, s in enumerate(steps):
         _check_forward(s, ctx, oracle="C01.history")
+
+
+# --- large arrays: sizes at and around the usual implementation thresholds -----------------------------
+
+@st.composite
+def large_case(draw, tier="quick"):
+    in_shape = (draw(gen.big_dim()), draw(gen.big_dim()))
+    kind = draw(st.sampled_from(["full_period", "full_period", "general"]))
+    k = draw(st.integers(0, 2**31 - 1))
+    rng = np.random.default_rng(k)
+    f = rng.normal(size=in_shape) + 1j * rng.normal(size=in_shape)
+    if kind == "full_period":
+        alpha = [1.0 / in_shape[0], 1.0 / in_shape[1]]
+        return {"forms": {"dtype": "complex", "layout": draw(gen.layouts())}, "f": f,
+                "alpha_arg": alpha if draw(st.booleans()) or in_shape[0] != in_shape[1] else alpha[0], "alpha": alpha,
+                "akind": "full_period", "out_shape": list(in_shape), "shape_arg": draw(st.sampled_from(["none", "pair"])),
+                "shift": [0.0, 0.0], "offset": [0, 0], "unitary": draw(st.booleans()),
+                "out": draw(st.sampled_from(["none", "dirty"]))}
+    out_shape = (draw(st.integers(1, 40)), draw(st.integers(1, 40)))
+    alpha = [draw(gen.signed_log(1e-4, 0.05)), draw(gen.signed_log(1e-4, 0.05))]
+    return {"forms": {"dtype": "complex", "layout": draw(gen.layouts())}, "f": f, "alpha_arg": alpha, "alpha": alpha,
+            "akind": "pair", "out_shape": list(out_shape), "shape_arg": "pair",
+            "shift": [draw(gen.finite(-20, 20)), draw(gen.finite(-20, 20))],
+            "offset": [draw(st.integers(-50, 50)), draw(st.integers(-50, 50))], "unitary": draw(st.booleans()),
+            "out": "none"}
+
+
+@hyp("C01", "large", lambda tier: large_case(tier),
+     "inputs of 63..160 samples per axis (at and around 64 / 128, both parities): full-period transforms and general "
+     "configurations vs the defining sum; inverse round trip", examples=(24, 40), budget_s=(120, 600))
+def large(case, ctx):
+    _tags(case, ctx)
+    ctx.tag("large")
+    _check_forward(case, ctx, oracle="C01.large")
+    if case["akind"] == "full_period":
+        f = case["f"]
+        a = tuple(case["alpha"])
+        with lentil_call("C01.large.inverse", "idft2(dft2(f))"):
+            g = fourier.idft2(fourier.dft2(f, a, unitary=case["unitary"]), a, unitary=case["unitary"])
+        tol = 64 * np.finfo(float).eps * (1 + np.pi * sum(f.shape)) * float(np.sum(np.abs(f)))
+        if float(np.max(np.abs(g - f))) > tol:
+            raise Violation("C01.large.roundtrip", f"idft2(dft2(f)) != f for shape {f.shape}")
